@@ -10,6 +10,8 @@ import warnings
 
 import numpy as np
 
+from vk import kernel as K
+
 UNIT_TIMEOUT = 1800.0
 WINDOW = {'U1': [(-1,), (0,), (1,)], 'Z2': [(0,), (1,)], 'Z3': [(0,), (1,), (2,)], 'U1xZ2': [(-1, 1), (0, 0), (1, 1), (0, 1)], 'none': [()]}
 MODS = {'U1': [1], 'Z2': [2], 'Z3': [3], 'U1xZ2': [1, 2], 'none': []}
@@ -298,6 +300,81 @@ def check_single(ci, spec):
     return True
 
 
+def check_multi(legs4, qcs, order, new_axes):
+    """Several pipes at once and nested pipes on a rank-4 tensor (raises Bad):
+    combine_legs([g0, g1], new_axes) in any order of the groups / of new_axes equals the dense transposition + the
+    pipe maps; split_legs with the axes listed in any order restores the tensor; conj() of a nested pipe conjugates the
+    legs at every depth (after splitting everything, all legs are contractible with the original ones)."""
+    import tenpy.linalg.np_conserved as npc
+    ci = legs4[0].chinfo
+    a = npc.Array.from_func(_filler, legs4, dtype=np.float64, labels=['a', 'b', 'c', 'd'])
+    if a.stored_blocks == 0:
+        return False
+    dense = a.to_ndarray()
+    groups = [[0, 1], [2, 3]] if order == 0 else [[2, 3], [0, 1]] if order == 1 else [[3, 0], [1, 2]]
+    kw = dict(qconj=list(qcs))
+    if new_axes is not None:
+        kw['new_axes'] = new_axes
+    c = a.combine_legs(groups, **kw)
+    pos = new_axes if new_axes is not None else [0, 1] if min(groups[0]) < min(groups[1]) else [1, 0]
+    if c.rank != 2:
+        raise Bad('multi:rank', 'combining two pairs of a rank-4 tensor gives rank %d' % c.rank)
+    exp_labels = [None, None]
+    for g, p_ in zip(groups, pos):
+        exp_labels[p_] = '(' + '.'.join('abcd'[k] for k in g) + ')'
+    if c.get_leg_labels() != exp_labels:
+        raise Bad('multi:labels', 'labels %r, expected %r' % (c.get_leg_labels(), exp_labels))
+    cd = c.to_ndarray()
+    pipes = [c.legs[pos[0]], c.legs[pos[1]]]
+    for gi, (g, pipe) in enumerate(zip(groups, pipes)):
+        if not isinstance(pipe, npc.LegPipe) or [l.ind_len for l in pipe.legs] != [legs4[k].ind_len for k in g] or pipe.qconj != qcs[gi]:
+            raise Bad('multi:pipe-legs', 'pipe at position %d is not the pipe of legs %r with the requested qconj' % (pos[gi], g))
+        for l_in, k in zip(pipe.legs, g):
+            try:
+                l_in.test_equal(legs4[k])
+            except Exception as e:  # noqa: BLE001
+                raise Bad('multi:pipe-legs', 'pipe for group %r does not contain the legs of that group: %s' % (g, e))
+    for idx in itertools.product(*[range(l.ind_len) for l in legs4]):
+        j = [int(pipes[gi].map_incoming_flat(np.array([idx[k] for k in g], dtype=np.intp))) for gi, g in enumerate(groups)]
+        at = [0, 0]
+        at[pos[0]], at[pos[1]] = j[0], j[1]
+        if cd[tuple(at)] != dense[idx]:
+            raise Bad('multi:placement', 'entry %r of the tensor is not where the two pipe maps put it' % (idx,))
+    ref_t = a.transpose([k for p_ in sorted(range(2), key=lambda t: pos[t]) for k in groups[p_]])
+    for axes in (None, [0, 1], [1, 0], ['%s' % c.get_leg_labels()[1], 0]):
+        back = c.split_legs(axes)
+        inv = K.array_invariants(back)
+        if inv:
+            raise Bad('multi:split:invariant', 'split_legs(%r): %s' % (axes, inv[0]))
+        if back.get_leg_labels() != ref_t.get_leg_labels() or not np.array_equal(back.to_ndarray(), ref_t.to_ndarray()):
+            raise Bad('multi:split-roundtrip', 'split_legs(%r) after combine_legs(%r, new_axes=%r) does not restore the tensor' % (axes, groups, new_axes))
+    # nested pipe: ((a.b).c) ; conj ; split completely
+    n1 = a.combine_legs([[0, 1]], qconj=qcs[0])
+    n2 = n1.combine_legs([[0, 1]], qconj=qcs[1])
+    nc = n2.conj()
+    full = nc.split_legs(0).split_legs(0)
+    ac = a.conj()
+    if not np.array_equal(full.to_ndarray(), ac.to_ndarray()):
+        raise Bad('nested:conj-split:values', 'conj of a nested pipe, split completely, differs from conj of the tensor')
+    for k, (l1, l2) in enumerate(zip(full.legs, a.legs)):
+        try:
+            l1.test_contractible(l2)
+        except Exception as e:  # noqa: BLE001
+            raise Bad('nested:conj-split:legs', 'leg %d after conj + complete split is not contractible with the original leg: %s' % (k, e))
+    inner = nc.legs[0].legs[0]
+    if isinstance(inner, npc.LegPipe):
+        for l_in, l_orig in zip(inner.legs, legs4[:2]):
+            if l_in.qconj != -l_orig.qconj:
+                raise Bad('nested:conj:inner-legs', 'conj() of a nested pipe does not conjugate the innermost legs')
+        if K.leg_invariants(nc.legs[0]):
+            raise Bad('nested:conj:invariant', K.leg_invariants(nc.legs[0])[0])
+    try:
+        npc.tensordot(n2, nc, axes=[[0, 1], [0, 1]])
+    except Exception as e:  # noqa: BLE001
+        raise Bad('nested:conj:not-contractible', str(e))
+    return True
+
+
 def units(tier, seed, label):
     us = []
     chs = ['U1', 'Z3', 'U1xZ2', 'Z2', 'none']
@@ -318,6 +395,10 @@ def units(tier, seed, label):
         n1b = len(all_legs(ch, 1 if tier == 'quick' else 2))
         for a in range(0, n1b, 2 if tier == 'quick' else 4):
             us.append(('triples', ch, a, min(n1b, a + (2 if tier == 'quick' else 4)), tier))
+    for ch in ('U1', 'Z3', 'U1xZ2'):
+        nm = len(all_legs(ch, 2))
+        for a in range(0, nm, 12):
+            us.append(('multi', ch, a, min(nm, a + 12), tier))
     if label == 'PY' and tier == 'quick':
         # the pure-Python kernels differ only in LegPipe._init_from_legs and small helpers (compared directly in C04):
         # all single-leg cases, every fourth pipe unit
@@ -339,7 +420,28 @@ def run_unit(unit):
         if len(viol) < 8:
             viol.append(dict(key=e.key, what='%s: %s' % (case, e.msg), case=case))
 
-    if kind == 'single':
+    if kind == 'multi':
+        tier = unit[4]
+        base = all_legs(ch, 2)
+        first = base[unit[2]:unit[3]]
+        partners = [s_ for s_ in base if len(s_[1]) == 2][:: (5 if tier == 'quick' else 2)] + [base[0]]
+        for s0 in first:
+            for pi, s1 in enumerate(partners):
+                s2, s3 = partners[(pi * 7 + 3) % len(partners)], base[(unit[2] + pi) % len(base)]
+                legs4 = [mk(ci, sp) for sp in (s0, s1, s2, s3)]
+                for (qcs, order, new_axes) in [((1, -1), 0, None), ((-1, 1), 1, None), ((1, 1), 1, [1, 0]), ((-1, -1), 2, [1, 0]), ((1, -1), 0, [1, 0])]:
+                    ev += 1
+                    case = dict(kind='multi', ch=ch, legs=[[list(map(list, sp[0])), list(sp[1]), sp[2]] for sp in (s0, s1, s2, s3)], qconj=list(qcs), order=order, new_axes=new_axes)
+                    try:
+                        if check_multi(legs4, qcs, order, new_axes):
+                            keys.add('m:%s:%r' % (ch, (s0, s1, s2, s3, qcs, order, new_axes)))
+                    except Bad as e:
+                        record(e, case)
+                    except Exception as e:  # noqa: BLE001
+                        import traceback
+                        record(Bad('multi:exception:' + type(e).__name__, traceback.format_exc()[-800:]), case)
+                    sample = case
+    elif kind == 'single':
         legs = all_legs(ch, 3)[unit[2]:unit[3]]
         for spec in legs:
             ev += 1
@@ -402,7 +504,10 @@ def replay(case):
     ci = chinfo(case['ch'])
     viol = []
     try:
-        if case['kind'] == 'single':
+        if case['kind'] == 'multi':
+            legs4 = [mk(ci, (tuple(map(tuple, l[0])), tuple(l[1]), l[2])) for l in case['legs']]
+            check_multi(legs4, tuple(case['qconj']), case['order'], case['new_axes'])
+        elif case['kind'] == 'single':
             l = case['leg']
             check_single(ci, (tuple(map(tuple, l[0])), tuple(l[1]), l[2]))
         else:
